@@ -418,6 +418,100 @@ def all_mutations(doc):
     return muts
 
 
+# ---- renamed members (seeded round 3, C17-j): the decoder must read each field under the ONE key the schema lists
+# legacy spellings from hugr's own history (field renames between serialization versions) and from the Rust side
+LEGACY = {"runtime_reqs": ["extension_reqs", "input_extensions", "extension_delta", "extensions"],
+          "extension_reqs": ["runtime_reqs"], "signature": ["sig", "type_scheme"], "body": ["sig", "signature"],
+          "params": ["vars", "type_params"], "input": ["inputs", "in"], "output": ["outputs", "out"],
+          "typ": ["ty", "type"], "ty": ["typ"], "tys": ["types"], "vs": ["values", "vals"], "v": ["c"], "t": ["ty"],
+          "op": ["optype"], "parent": ["p"], "name": ["op_name", "id"], "args": ["type_args"], "bound": ["b"],
+          "b": ["bound"], "extension": ["ext"], "metadata": ["meta"], "encoder": ["generator"],
+          "sum_rows": ["variants"], "other_outputs": ["outputs"], "just_inputs": ["inputs"], "just_outputs": ["outputs"],
+          "nodes": ["ops"], "edges": ["links"], "lower_funcs": ["lowering"], "description": ["desc", "doc"]}
+NEAR = ["camel", "under", "upper", "hyphen", "plural", "dunder"]
+
+
+def near_miss(k, how):
+    """A near-miss spelling of member name k (None when it would be k itself)."""
+    if how == "camel":
+        parts = k.split("_")
+        r = parts[0] + "".join(x[:1].upper() + x[1:] for x in parts[1:]) if len(parts) > 1 else k[:1].upper() + k[1:]
+    elif how == "under":
+        r = k + "_"
+    elif how == "upper":
+        r = k.upper()
+    elif how == "hyphen":
+        r = k.replace("_", "-") if "_" in k else k + "-"
+    elif how == "plural":
+        r = k[:-1] if k.endswith("s") and len(k) > 1 else k + "s"
+    else:
+        r = "_" + k
+    return None if r == k else r
+
+
+def renamep(doc, path, new):
+    """The member at `path` under the key `new` (same position, same value)."""
+    d = copy.deepcopy(doc)
+    parent = getp(d, path[:-1])
+    items = [((new if k == path[-1] else k), v) for k, v in parent.items()]
+    parent.clear()
+    parent.update(items)
+    return d
+
+
+def object_kind(o):
+    """Which model class an object (probably) instantiates: its discriminator tags, else its member names."""
+    tags = [(k, o[k]) for k in sorted(TAGS) if isinstance(o.get(k), str)]
+    return json.dumps(tags) if tags else json.dumps(sorted(o)[:6])
+
+
+def rename_mutations(doc, alias_keys=None):
+    """(kind of the object, old key, new key, legacy?, path of the RENAMED member, thunk) for every member of every
+    object and every legacy / near-miss spelling (plus every key the decoder is known to read for a field of that
+    name, from harness/c17/alias_probe.py)."""
+    out = []
+    for path, v in find_all(doc, lambda x: isinstance(x, dict)):
+        kind = object_kind(v)
+        for k in v:
+            if not isinstance(k, str) or not k:
+                continue
+            seen = set()
+            alts = [(n, True) for n in (alias_keys or {}).get(k, [])] + [(n, True) for n in LEGACY.get(k, [])]
+            alts += [(near_miss(k, h), False) for h in NEAR]
+            for n, legacy in alts:
+                if n is None or n == k or n in v or n in seen:
+                    continue
+                seen.add(n)
+                out.append((kind, k, n, legacy, path + (n,), lambda p=path + (k,), n=n: renamep(doc, p, n)))
+    return out
+
+
+_probe = {}
+
+
+def alias_probe():
+    """harness/c17/alias_probe.py on the checkout (once per run): the keys the decoder reads per field."""
+    if "r" not in _probe:
+        env = dict(os.environ, PYTHONPATH=fw.SRC, PYTHONHASHSEED="0", PYTHONDONTWRITEBYTECODE="1")
+        try:
+            r = subprocess.run([sys.executable, os.path.join(C17DIR, "alias_probe.py")], env=env, text=True,
+                               capture_output=True, timeout=120)
+            _probe["r"] = json.loads(r.stdout) if r.returncode == 0 else {"error": r.stderr[-1200:]}
+        except Exception as e:  # noqa: BLE001
+            _probe["r"] = {"error": "%s: %s" % (type(e).__name__, str(e)[:600])}
+    return _probe["r"]
+
+
+def alias_keys():
+    """{schema key: [further keys the decoder reads for a field listed under that key]} (empty on the unchanged tree)."""
+    out = {}
+    for i in alias_probe().get("issues", []):
+        if i.get("schema_key"):
+            out.setdefault(i["schema_key"], [])
+            out[i["schema_key"]] += [k for k in i["accepted"][1:] if k not in out[i["schema_key"]]]
+    return out
+
+
 def pattern_of(entry, path):
     return entry + "".join("/" + ("*" if isinstance(p, int) else str(p)) for p in path)
 
@@ -507,7 +601,10 @@ class C17(fw.Prop):
             "models after histories of Root._pydantic_rebuild calls in one process (per root and configuration: the other "
             "root with the same configuration just before, the same root under the other configuration before, a "
             "configuration left and come back to; thorough: three more), against the Coq validator on the file expected "
-            "in the state reached; root-object mutations (extra / missing / wrong-typed member) as a stream of their own.  "
+            "in the state reached; root-object mutations (extra / missing / wrong-typed member) as a stream of their own; members RENAMED to legacy / "
+            "near-miss spellings (extension_reqs, input_extensions, camelCase, trailing underscore, upper case, hyphen, "
+            "plural, leading underscore, and every key the alias probe finds the decoder to read) as a stream of their own, "
+            "one occurrence of every (object kind, member name).  "
             "non-trivial = mutated, or a document of more than 20 JSON values")
     trusted = [
         "translator harness/translators/schema.py (JSON -> Gallina constants; fails closed on unknown keywords, duplicate keys, unexpected files)",
@@ -517,6 +614,9 @@ class C17(fw.Prop):
         "pydantic's cached nested core schemas (a plain _pydantic_rebuild leaves nested validators on the old config; hugr-py never "
         "decodes with the strict config, it only generates the strict schema from it)",
         "python-jsonschema 4.26 (Draft 2020-12) as the reference for the Coq validator",
+        "harness/c17/alias_probe.py reads model_fields / model_config of every pydantic class of hugr._serialization (alias, "
+        "validation_alias, populate_by_name, alias_generator): a field the decoder reads under more than the one key its schema "
+        "lists is reported (fail closed) and the further keys are fed to the renamed-member stream",
         "rebuild histories: harness/c17/seq_schema.py calls the checkout's own scripts/generate_schema.py write_schema step by "
         "step (one fresh process per history); harness/c17/seq_worker.py performs a history through Root._pydantic_rebuild only, "
         "then drops cached core schemas and rebuilds every class with the configuration it carries (writes no configuration)",
@@ -566,6 +666,15 @@ class C17(fw.Prop):
         cs.append(mk_case("hugr", "corpus:hugr-node-extra", "SerialHugr",
                           {"version": "live", "nodes": [{"parent": 0, "op": "Module", "zz_extra": 1}], "edges": []},
                           "extra", False, ("nodes", 0)))
+        # seeded C17-j (a validation alias: the decoder reads a legacy key the schema does not list): a function type
+        # that spells its requirement set `extension_reqs` - refused by the strict files, an extra member for the lax
+        fty = {"t": "G", "input": [], "output": [], "extension_reqs": ["e"]}
+        cs.append(dict(mk_case("hugr", "corpus:functype-legacy-extension_reqs", "FunctionType", fty, "rename", False,
+                               ("extension_reqs",)), old="runtime_reqs"))
+        cs.append(dict(mk_case("testing", "corpus:testing-functype-legacy-extension_reqs", "TestingHugr",
+                               {"version": "live", "typ": fty}, "rename", False, ("typ", "extension_reqs")), old="runtime_reqs"))
+        cs.append(dict(mk_case("hugr", "corpus:polyfunctype-legacy-extension_reqs", "PolyFuncType",
+                               {"params": [], "body": fty}, "rename", False, ("body", "extension_reqs")), old="runtime_reqs"))
         return cs
 
     def generate(self, rng, tier, ctx):
@@ -615,7 +724,39 @@ class C17(fw.Prop):
             rng.shuffle(top)
             for cls, one_way, path, thunk in top[: (1 if quick else 4)]:
                 cases.append(mk_case(fam, name, entry, thunk(), cls, one_way, path))
+        cases += self.rename_stream(rng, pool, quick)
         return cases
+
+    def rename_stream(self, rng, pool, quick):
+        """Members renamed to legacy / near-miss spellings.  One occurrence (in the smallest document) of every
+        (object kind, member name); for each, every key the alias probe says the decoder reads (none on the unchanged
+        tree), then legacy and near-miss spellings: quick = all legacy spellings of `runtime_reqs` and the first legacy
+        spelling of the function-type / signature members (input, output, body, params) in every kind of object
+        that has them + a random sample of the rest (14 legacy, 26 near-miss)."""
+        ak = alias_keys()
+        occ = {}
+        for fam, (name, entry, doc) in sorted(pool, key=lambda x: len(json.dumps(x[1][2]))):
+            if len(json.dumps(doc)) > 6000:
+                continue
+            for m in rename_mutations(doc, ak):
+                occ.setdefault((m[0], m[1]), []).append((fam, name, entry) + m)
+        first, rest = [], []
+        for key in sorted(occ):
+            ms = occ[key]
+            fam0, name0 = ms[0][0], ms[0][1]
+            ms = [m for m in ms if (m[0], m[1]) == (fam0, name0)]
+            paths = sorted({m[7][:-1] for m in ms})
+            ms = [m for m in ms if m[7][:-1] == paths[0]]
+            for m in ms:
+                forced = m[4] in ak or (m[6] and (m[4] == "runtime_reqs" or
+                                                   (m[4] in ("input", "output", "body", "params") and m[5] == LEGACY[m[4]][0])))
+                (first if forced else rest).append(m)
+        rng.shuffle(rest)
+        legacy = [m for m in rest if m[6]]
+        near = [m for m in rest if not m[6]]
+        chosen = first[: (40 if quick else 400)] + legacy[: (14 if quick else 400)] + near[: (26 if quick else 600)]
+        return [dict(mk_case(fam, name, entry, th(), "rename", False, path), old=old)
+                for fam, name, entry, kind, old, newk, leg, path, th in chosen]
 
     def observe(self, case, ctx):
         return verdicts(case["fam"], case["entry"], case["doc"], api_wanted(case), cross_wanted(case))
@@ -653,6 +794,18 @@ class C17(fw.Prop):
                     if q["api"] and not js:
                         direction = "after-rebuilds:root-validator-accepts"
                         break
+        if case["mut"] == "rename" and case.get("old") and isinstance(obs, dict) and direction not in ("same", "?"):
+            # a renamed member is a missing member + an unknown one: when the document without the member already
+            # disagrees in the same direction and that is a KNOWN finding (a HUGR without `version`), this is that finding
+            try:
+                comp = dict(case, mut="missing", path=list(case["path"][:-1]) + [case["old"]],
+                            doc=delp(case["doc"], tuple(case["path"])))
+                o2 = self.observe(comp, ctx)
+                sig2 = self.signature(comp, o2, ctx)
+                if self.py_mon_fails(comp, o2) and sig2.rsplit(":", 1)[1] == direction and sig2 in fw.load_known(self.id)[0]:
+                    return sig2
+            except Exception:  # noqa: BLE001
+                pass
         return "%s:%s:%s" % (case["mut"], pattern_of(case["entry"], case["path"]), direction)
 
     def py_mon_fails(self, case, obs):
@@ -726,7 +879,11 @@ class C17(fw.Prop):
     def neighbours(self, case, rng):
         ms = all_mutations(case["doc"])
         rng.shuffle(ms)
-        return [mk_case(case["fam"], case["base"], case["entry"], th(), cls, ow, path) for cls, ow, path, th in ms[:400]]
+        rs = rename_mutations(case["doc"], alias_keys()) if len(json.dumps(case["doc"])) < 6000 else []
+        rng.shuffle(rs)
+        return [dict(mk_case(case["fam"], case["base"], case["entry"], th(), "rename", False, path), old=o_)
+                for _, o_, _, _, path, th in rs[:40]] + \
+               [mk_case(case["fam"], case["base"], case["entry"], th(), cls, ow, path) for cls, ow, path, th in ms[:360]]
 
     def distribution(self, cases, observations):
         d = {}
@@ -755,6 +912,7 @@ class C17(fw.Prop):
         if getattr(self, "builder_error", None):
             out.append(("builder-programs-failed", "the builder programs that produce the HUGR/package documents raise: "
                         + self.builder_error, {"signature": "builder-programs-failed", "error": self.builder_error}))
+        out += self.undeclared_keys(ctx)
         drift = {}
         for pre in tr.PREFIXES:
             diffs = schema_diff(norm_py(info["published"][pre]), norm_py(info["generated"][pre]))
@@ -779,6 +937,52 @@ class C17(fw.Prop):
         ctx.stats["schema_constants"] = {"bytes": os.path.getsize(os.path.join(fw.COQ, "gen", "Schemas.v"))}
         out += self.order_drift(ctx, tier, info, bool(drift))
         return out
+
+    def undeclared_keys(self, ctx):
+        """Fail closed on decoder keys the schema cannot show (harness/c17/alias_probe.py): every field of every
+        serialization model class must be read under exactly ONE top-level key - the one pydantic lists as the
+        property.  A further key (validation alias with choices, alias path, populate_by_name with an alias, alias
+        generator) is a member the strict files refuse and the decoder consumes.  Reported with a concrete document
+        (the field's object under the undeclared key, smallest occurrence in the documents of this run) when the
+        strict decoder and the strict file are seen to disagree on it."""
+        out = []
+        probe = alias_probe()
+        ctx.stats["decoder_keys_probe"] = {k: probe.get(k) for k in ("classes", "fields")}
+        ctx.stats["decoder_keys_probe"]["undeclared"] = len(probe.get("issues", [])) if "error" not in probe else None
+        if "error" in probe:
+            return [("decoder-keys-probe-failed", "the probe of the model classes' fields (aliases) did not run: " + probe["error"],
+                     {"signature": "decoder-keys-probe-failed", "error": probe["error"]})]
+        for i in probe["issues"][:6]:
+            detail = {"signature": "undeclared-decoder-key:%s.%s" % (i["cls"], i["field"]), "class": i["cls"], "field": i["field"],
+                      "schema_lists": i["schema_key"], "decoder_reads": i["accepted"], "alias_paths": i["paths"], "why": i["why"]}
+            hit = self.search_undeclared(i)
+            if hit:
+                detail["failing_input"] = hit
+            out.append(("undeclared-decoder-key", "the decoder reads field %s.%s under keys %s (%s) but a generated schema lists one "
+                        "property key per field: the strict files refuse the others" % (i["cls"], i["field"], i["accepted"] + i["paths"],
+                                                                                     ", ".join(i["why"])), detail))
+        return out
+
+    def search_undeclared(self, issue):
+        builder, files = self.bases("quick")
+        bases = builder + [f for f in files if len(json.dumps(f[2])) < 6000]
+        bases = [("hugr", b) for b in bases] + [("testing", t) for t in testing_docs(builder + files)]
+        ak = {issue["schema_key"]: issue["accepted"][1:]} if issue.get("schema_key") else {}
+        n = 0
+        for fam, (name, entry, doc) in sorted(bases, key=lambda x: len(json.dumps(x[1][2]))):
+            for kind, old, newk, leg, path, th in rename_mutations(doc, ak):
+                if old != issue.get("schema_key") or newk not in issue["accepted"][1:]:
+                    continue
+                n += 1
+                if n > 60:
+                    return None
+                c = dict(mk_case(fam, name, entry, th(), "rename", False, path), old=old)
+                o = verdicts(fam, entry, c["doc"])
+                for mode in ("strict", "lax"):
+                    if o["js_" + mode] != o["pyd_" + mode]:
+                        return {"case": c, "published_schema_accepts": o["js_" + mode], "pydantic_accepts": o["pyd_" + mode],
+                                "configuration": mode}
+        return None
 
     def order_drift(self, ctx, tier, info, drifted):
         """Report for theorem C17_rebuild_orders_define_expected_schemas: the first step of each history whose
